@@ -145,6 +145,8 @@ class UnitOutcome:
         self.res = None
         self.failures = {}  # qname -> [failure dict]
         self.hint_failures = {}  # qname -> [failure]
+        self.hint_compile = {}  # qname -> set(hint tags) whose text does not compile on the current body
+        self.compile_outside_hints = False
         self.undecided = {}  # qname -> reason
         self.canary_ok = {}
         self.wall = 0.0
@@ -156,7 +158,7 @@ def norm(s):
     return " ".join((s or "").split())
 
 
-def run_unit(unit, drop_hints=(), suffix=""):
+def run_unit(unit, drop_hints=(), suffix="", mark_dropped=False):
     t0 = time.time()
     oc = UnitOutcome(unit)
     try:
@@ -176,6 +178,10 @@ def run_unit(unit, drop_hints=(), suffix=""):
         oc.wall = time.time() - t0
         return oc
     oc.asm = asm
+    if mark_dropped and isinstance(drop_hints, dict):
+        # hints removed because they no longer COMPILE: like unplaceable hints, a function that does not verify without them is undecided
+        for q_, tags_ in drop_hints.items():
+            asm.dropped_hints[q_] = asm.dropped_hints.get(q_, 0) + len(tags_)
     os.makedirs(BUILD, exist_ok=True)
     path = os.path.join(BUILD, unit.name + suffix + ".rs")
     with open(path, "w") as fh:
@@ -192,6 +198,11 @@ def run_unit(unit, drop_hints=(), suffix=""):
         if kind is None:
             real_compile_error = True
             oc.other_errors.append(e)
+            # a compile-level error inside OUR proof text (a hint that names a local the edited body no longer has ...)
+            if ent and (ent.get("kind") or "").startswith("hint") and ent.get("fn"):
+                oc.hint_compile.setdefault(ent["fn"], set()).add(ent["kind"])
+            else:
+                oc.compile_outside_hints = True
             continue
         if ent is None:
             oc.other_errors.append(e)
@@ -315,6 +326,13 @@ def check_property(prop, tier, units, specs, rebaseline=False, only_unit=None, s
         return 2
     with ThreadPoolExecutor(max_workers=min(4, len(unames))) as ex:
         outcomes = list(ex.map(lambda n: run_unit(units[n]), unames))
+    # proof hints that do not compile against the current body (renamed / removed local ...): re-run without them; the affected functions
+    # are then proved without the hint or reported undecided, never as a violation
+    for i, oc in enumerate(outcomes):
+        if oc.status == "compile-error" and oc.hint_compile and not oc.compile_outside_hints:
+            oc2 = run_unit(oc.unit, drop_hints={q: set(t) for q, t in oc.hint_compile.items()}, suffix="_nohints", mark_dropped=True)
+            lines.append("NOTE property=%s proof hint(s) of %s do not compile on the current body: re-run without them (%s)" % (prop, ", ".join(sorted(oc.hint_compile)), oc2.status))
+            outcomes[i] = oc2
     # hint failures: re-run the unit with the FAILING hints (only those) of the affected functions removed; a hint that depended on a removed
     # one may fail in turn, hence a few rounds.  Verus assumes a failed assertion afterwards, so results below a failed hint are not trusted.
     for i, oc in enumerate(outcomes):
@@ -383,13 +401,17 @@ def check_property(prop, tier, units, specs, rebaseline=False, only_unit=None, s
             cands = verus_fn_lookup(oc.res.functions, crate, q)
             t_us = sum(v["time_us"] for _, v in cands)
             solver_us += t_us
-            obligations += 1 + nclauses
-            ok = not fails and not und and q not in oc.failures
-            # a failure that belongs only to other properties' clauses does not count here
-            if not fails and not und:
-                ok = True
+            # obligations recorded as known findings (of this or of another property) are not claimed: they are listed under known_findings,
+            # taken out of the obligation count, and the function counts as verified when nothing else fails in it
+            def _is_known(fl_):
+                oid_ = obligation_id(q, fl_)
+                return any(k.get("kind") == "finding" and k.get("fn") == q and re.search(k.get("obligation_re", "^$"), oid_) for k in known)
+            n_known = len([x for x in fails if _is_known(x)])
+            other = [x for x in fails if not _is_known(x)]
+            obligations += 1 + nclauses - (n_known + 1 if n_known else 0)
+            ok = not other and not und
             if ok:
-                discharged += 1 + nclauses
+                discharged += 1 + nclauses - (n_known + 1 if n_known else 0)
             else:
                 # count the clauses that did not fail as discharged
                 bad = max(1, len(fails)) if fails else 1
